@@ -107,9 +107,25 @@ class Interp(StmtMixin, ObjMixin):
             v = v.fget
         return v
 
+    def _rebindable_globals(self, module):
+        """Names of a module that some function rebinds through a ``global`` statement: the module's mutable state."""
+        cache = self.hooks.setdefault('rebindable_globals', {})
+        if module.name not in cache:
+            import ast as _ast
+            cache[module.name] = {n for st in _ast.walk(module.tree) if isinstance(st, _ast.Global) for n in st.names}
+        return cache[module.name]
+
+    def _note_state_read(self, module, name):
+        """A memoised function (functools.cache / lru_cache) is only transparent if its result depends on its arguments alone:
+        a read of rebindable module state while one is executing is recorded (verify turns it into a refuted obligation)."""
+        stack = self.hooks.get('memoised_stack')
+        if stack and name in self._rebindable_globals(module):
+            self.ctx.memo_state_reads.append((stack[0], f'{module.name}.{name}'))
+
     def load_name(self, name, fr: Frame):
         f = fr
         if name in fr.globals_decl:
+            self._note_state_read(fr.module, name)
             return self.module_get(fr.module, name)
         first = True
         while f is not None:
@@ -119,6 +135,7 @@ class Interp(StmtMixin, ObjMixin):
             f = f.closure
         v = self.module_get(fr.module, name, None) if (fr.module.binds(name) or name in self.module_globals(fr.module)) else MISSING
         if v is not MISSING:
+            self._note_state_read(fr.module, name)
             return v
         if name in self.builtins:
             return self.builtins[name]
